@@ -20,10 +20,10 @@ func init() {
 	register(&Rule{ID: "E-VARARGS-ALL", Props: []string{"C02", "C08"}, Floor: 1,
 		Doc: "the variadic cases of the dispatcher (merge, zip) evaluate and type-check every argument before producing a result: inside the loop over the argument list only error returns occur (not_null, which the specification defines as short-circuiting, is the listed exception)",
 		Run: ruleEVarargsAll})
-	register(&Rule{ID: "P-CONSTINDEX", Props: []string{"C03", "C04", "C16"}, Floor: 1,
+	register(&Rule{ID: "P-CONSTINDEX", Props: []string{"C03", "C04", "C16", "C11"}, Floor: 1,
 		Doc: "in the literal decoders of the parser every constant index and constant slice bound on the text being decoded is in range by a dominating length fact (len(v) < k exit, len(v) == 0 exit), by the scanning idiom (the text after a backslash found by IndexByte that is not the last byte), or by slicing off a known-length prefix",
 		Run: rulePConstIndex})
-	register(&Rule{ID: "E-JSONNUMBER-CAST", Props: []string{"C05", "C18", "C02", "C14", "C16"}, Floor: 1,
+	register(&Rule{ID: "E-JSONNUMBER-CAST", Props: []string{"C05", "C18", "C02", "C14", "C16", "C08"}, Floor: 1,
 		Doc: "no string is re-typed as json.Number inside the evaluator: json.Number values are trusted to hold number text (validated by encoding/json), so casting arbitrary text lets NaN, Infinity or digit separators pass for numbers",
 		Run: ruleEJSONNumberCast})
 }
@@ -188,6 +188,10 @@ func ruleENullIsAValue(p *Program, r *Reporter) {
 		}
 		name := p.FuncName(fn)
 		n++
+		if why, ok := anyTypedBuiltins[name]; ok {
+			r.Trivial(fn.Pos(), name+" treats null as a value", "exempt: "+why)
+			continue
+		}
 		bad := ""
 		for _, b := range fn.Blocks {
 			for _, in := range b.Instrs {
@@ -560,4 +564,13 @@ func rulePNoLibParse(p *Program, r *Reporter) {
 			r.OK(fn.Pos(), name+" decodes by itself", "no library number/quote parser is applied to the literal's text")
 		}
 	}
+}
+
+
+// anyTypedBuiltins: helpers (by canonical name) of the built-ins whose argument may be any JSON value, null included.
+var anyTypedBuiltins = map[string]string{
+	"evaluator.typeName": "type(null) is \"null\"",
+	"evaluator.toString": "to_string(null) is \"null\"",
+	"evaluator.toArray":  "to_array(null) is [null]",
+	"evaluator.toNumber": "to_number(null) is null",
 }
